@@ -721,9 +721,7 @@ func a1(w *World, r *Report) {
 		if fn == nil {
 			continue
 		}
-		vs := w.callsTo(fn, fref{"node", "", "validateTrx"})
-		rs := w.callsTo(fn, fref{"node", "", "runTrx"})
-		ok := len(vs) == 1 && len(rs) == 1 && sameValue(vs[0].Common().Args[0], rs[0].Common().Args[0]) && w.nilTestAt(callValue(vs[0]), rs[0].Block()) == -1
+		ok, _ := w.validateBeforeRun(fn)
 		r.Check(ok, "A-1", refStr(ref)+":validate-before-run", "runTrx executes only where validateTrx returned nil for the same context", "runTrx is reachable although validateTrx failed", fnSite(w, fn))
 	}
 }
@@ -1214,6 +1212,78 @@ func (w *World) creditSide() (bool, string) {
 	}
 	if o2.err > 0 {
 		return false, "AcctCtrler.Reward can fail although the account exists and the credit succeeded"
+	}
+	return true, ""
+}
+
+// validateBeforeRun: in fn — and in the helpers it shares the two steps with — runTrx
+// is called only after validateTrx of the same context, and never on a path on
+// which that validation reported an error (decided on the enumerated paths, with
+// the helpers expanded in line).
+func (w *World) validateBeforeRun(fn *ssa.Function) (bool, string) {
+	ev := func(in ssa.Instruction) string {
+		c, ok := in.(ssa.CallInstruction)
+		if !ok {
+			return ""
+		}
+		cal := c.Common().StaticCallee()
+		if cal == nil || len(c.Common().Args) != 1 || w.FuncPkgPath(cal) != absPkg("node") {
+			return ""
+		}
+		switch cal.Name() {
+		case "validateTrx":
+			return "V\x01" + w.Canon(c.Common().Args[0])
+		case "runTrx":
+			return "R\x01" + w.Canon(c.Common().Args[0])
+		}
+		return ""
+	}
+	run := func(facts ...atom) ([]pathEnd, bool, bool) {
+		fe := w.newFactEval(nil, facts...)
+		saved := w.branchMarkers
+		w.branchMarkers = false
+		w.enumDepth = 3
+		ps, complete := w.enumPaths(fn, fe.eval, ev, 4000)
+		w.enumDepth = 0
+		w.branchMarkers = saved
+		return ps, complete, len(facts) == 0 || len(fe.used) > 0
+	}
+	// no run where the validation failed
+	ps, complete, used := run(AR(`^node\.validateTrx\(.*\)$`, "!=", "^nil$"))
+	if !complete || !used {
+		return false, "the paths under a failed validation cannot be enumerated"
+	}
+	for _, p := range ps {
+		for _, e := range p.Events {
+			if strings.HasPrefix(e, "R\x01") {
+				return false, "runTrx is reached on a path on which validateTrx failed"
+			}
+		}
+	}
+	// every run is preceded by the validation of the same context
+	ps, complete, _ = run()
+	if !complete {
+		return false, "path enumeration incomplete"
+	}
+	nRun := 0
+	for _, p := range ps {
+		validated := map[string]bool{}
+		for _, e := range p.Events {
+			if strings.HasPrefix(e, "V\x01") {
+				validated[e[2:]] = true
+			}
+			if strings.HasPrefix(e, "R\x01") {
+				nRun++
+				if !validated[e[2:]] {
+					return false, "runTrx of a context that was not validated on that path"
+				}
+				// one validation serves one run (a loop validates afresh)
+				delete(validated, e[2:])
+			}
+		}
+	}
+	if nRun == 0 {
+		return false, "runTrx is not reached"
 	}
 	return true, ""
 }
